@@ -182,6 +182,25 @@ def observe(svg, obj):
     return [(type(s).__name__, pts_of_segment(s)) for s in segs]
 
 
+def touch(svg, obj):
+    """reads everything a reader can read from the LIVE object and the segments it holds (not from copies): whatever a
+    segment memoises about itself is filled in before the next event has to invalidate it"""
+    segs = [obj] if isinstance(obj, svg.PathSegment) else (list(obj) if isinstance(obj, svg.Path) else [])
+    for sg in segs:
+        for fn in (lambda: sg.point(0.5), lambda: sg.bbox(), lambda: sg.length(error=1e-3), lambda: sg.d(),
+                   lambda: (sg.rx, sg.ry, sg.theta), lambda: sg.npoint([0.25, 0.75])):
+            try:
+                fn()
+            except Exception:  # noqa
+                pass
+    if not isinstance(obj, svg.PathSegment):
+        for fn in (lambda: obj.bbox(), lambda: obj.d(), lambda: obj.length(error=1e-3), lambda: obj.point(0.5)):
+            try:
+                fn()
+            except Exception:  # noqa
+                pass
+
+
 def compare(obs, base, A, tol, out, what, tags):
     if [k for k, _ in obs] != [k for k, _ in base]:
         out.fail("%s: segment kinds changed" % what, [k for k, _ in base], [k for k, _ in obs], kind="kinds", **tags)
@@ -226,9 +245,10 @@ def scale_of(base, A):
 
 
 class Histories(SubCheck):
-    def __init__(self, svg, name, objects, events, depth, tier):
+    def __init__(self, svg, name, objects, events, depth, tier, touch=False):
         self.svg = svg
         self.name = name
+        self.touch = touch      # read the live object's own segments (point, bbox, length, d) before and after every event
         self.objects = objects          # list of (objname, magnitude)
         self.events = events
         self.depth = depth
@@ -257,6 +277,8 @@ class Histories(SubCheck):
         oname, mag = case["obj"], case["mag"]
         base = observe(svg, self.fresh(oname, mag))
         x = self.fresh(oname, mag)
+        if self.touch:
+            touch(svg, x)
         own = af.IDENT
         tr = getattr(x, "transform", None)
         if tr is not None:
@@ -312,6 +334,12 @@ class Histories(SubCheck):
                 elif op == "topath":
                     x = svg.Path(x)
                 obs = observe(svg, x)
+                if self.touch:
+                    touch(svg, x)
+                    obs2 = observe(svg, x)
+                    if obs2 != obs:
+                        out.fail("after %r on %s: reading the object (point, bbox, length, d of its own segments) changed what "
+                                 "it is" % (case["history"][:step + 1], oname), None, None, kind="touch", **tags)
                 for nm, mo in list(mobj.items()):
                     got = (float(mo.a), float(mo.b), float(mo.c), float(mo.d), float(mo.e), float(mo.f))
                     if got != tuple(float(v) for v in MATS[nm]):
@@ -393,9 +421,15 @@ def build(tier, seed, svg):
         return [Histories(svg, "segments", seg_objs, ev_seg3, 3, tier),
                 Histories(svg, "shapes", [(n, 1.0) for n in pathnames],
                           ["mul:" + m for m in mats] + ["imul:" + m for m in ("R30", "MX", "S23", "KX30", "GN", "SWAP")]
-                          + ["reify", "abs", "topath", "matmul:S23", "imatmul:GN"], 3, tier), refused_check(svg)]
+                          + ["reify", "abs", "topath", "matmul:S23", "imatmul:GN"], 3, tier), refused_check(svg),
+                Histories(svg, "touched", [(n, 1.0) for n in pathnames],
+                          ["imul:" + m for m in ("S2", "T", "R30", "MX", "S23", "GN", "SYM")] + ["reify", "abs", "imatmul:S2", "imatmul:S23", "mul:S2", "mul:GN"],
+                          3, tier, touch=True)]
     return [Histories(svg, "segments", seg_objs, ev_seg, depth, tier),
-            Histories(svg, "shapes", [(n, 1.0) for n in pathnames], ev_shape, depth, tier), refused_check(svg)]
+            Histories(svg, "shapes", [(n, 1.0) for n in pathnames], ev_shape, depth, tier), refused_check(svg),
+            Histories(svg, "touched", [(n, 1.0) for n in pathnames],
+                      ["imul:" + m for m in ("S2", "T", "R30", "MX", "S23", "GN", "SYM")] + ["reify", "abs", "imatmul:S2", "imatmul:S23", "mul:S2", "mul:GN"],
+                      depth, tier, touch=True)]
 
 
 def m_round_direction(d):
